@@ -370,6 +370,9 @@ func GenListSized(r *prng.R, idx, maxStyles, maxRegions, maxItems int) ListSpec 
 	for i := 0; i < ns; i++ {
 		// ids of different lengths, digit counts and case, in no particular order: "s9" next to "s10", "Default" next to "a2"
 		id := fmt.Sprintf("%s%d", r.Pick("s", "s", "style", "Z", "a", "Default", "x_"), r.Intn(13))
+		if i > 0 && r.Bool(0.12) { // the id of an earlier style with the case of its letters swapped ("Default3" / "dEFAULT3")
+			id = swapCase(l.Styles[r.Intn(i)].ID)
+		}
 		for dup := true; dup; {
 			dup = false
 			for _, o := range l.Styles {
@@ -502,4 +505,17 @@ func sentenceNoEntities(r *prng.R, min, max int) string {
 		s += ws[r.Intn(len(ws))]
 	}
 	return s
+}
+
+func swapCase(s string) string {
+	b := []byte(s)
+	for i, c := range b {
+		switch {
+		case c >= 'a' && c <= 'z':
+			b[i] = c - 32
+		case c >= 'A' && c <= 'Z':
+			b[i] = c + 32
+		}
+	}
+	return string(b)
 }
